@@ -390,7 +390,7 @@ func drawPool(t *rapid.T) poolCase {
 	var c poolCase
 	small := rapid.StringMatching(`[ab\-]{1,3}`)
 	tricky := rapid.SampledFrom(trickyNames)
-	n := rapid.IntRange(2, 4).Draw(t, "nnames")
+	n := rapid.IntRange(2, 3).Draw(t, "nnames")
 	seen := map[string]bool{}
 	for len(c.Names) < n {
 		var s string
@@ -423,7 +423,7 @@ func drawPool(t *rapid.T) poolCase {
 	}
 	idxPool := []uint64{0, 1, 10, 11, 100, 101, 1<<63 - 1, 1<<64 - 1}
 	seenI := map[uint64]bool{}
-	for len(c.Indexes) < 3 {
+	for len(c.Indexes) < 2 {
 		var i uint64
 		if rapid.Bool().Draw(t, "idx_pool") {
 			i = rapid.SampledFrom(idxPool).Draw(t, "idx")
@@ -480,17 +480,17 @@ func (c poolCase) objects() []obj {
 
 func checkPool(t fataler, c poolCase) int {
 	hx.Journal(c)
-	seen := map[string]obj{}
 	objs := c.objects()
-	for _, o := range objs {
+	seen := make(map[string]int, len(objs))
+	for i, o := range objs {
 		var p string
 		if err := safely(func() { p = build(o) }); err != nil {
 			t.Fatalf("builder: %v; obj=%+v", err, o)
 		}
-		if prev, dup := seen[p]; dup && prev.key() != o.key() {
-			t.Fatalf("two different objects share the path %q: %+v and %+v", p, prev, o)
+		if prev, dup := seen[p]; dup && objs[prev].key() != o.key() {
+			t.Fatalf("two different objects share the path %q: %+v and %+v", p, objs[prev], o)
 		}
-		seen[p] = o
+		seen[p] = i
 		if err := checkRoundTrip(o); err != nil {
 			t.Fatalf("%v; obj=%+v", err, o)
 		}
@@ -514,8 +514,8 @@ func checkPool(t fataler, c poolCase) int {
 		t.Fatalf("reverse index / purge lock names coincide: %v", names)
 	}
 	for p, what := range extra {
-		if o, dup := seen[p]; dup {
-			t.Fatalf("%s shares the path %q with %+v", what, p, o)
+		if i, dup := seen[p]; dup {
+			t.Fatalf("%s shares the path %q with %+v", what, p, objs[i])
 		}
 	}
 	return len(objs)
